@@ -7,8 +7,9 @@ from harness import comp_search as S
 from vlib import core
 
 PROPS = "Props/C18.v"
-THEOREMS = ["C18_es_returns_min", "C18_es_result_is_survivor", "C18_es_all_filtered_is_failed_search",
-            "C18_es_later_empty_generation", "C18_survivors_in_box",
+THEOREMS = ["C18_es_returns_min", "C18_es_returns_min_number", "C18_es_result_is_survivor",
+            "C18_es_all_filtered_is_failed_search", "C18_es_empty_only_if_all_filtered",
+            "C18_es_later_empty_generation", "C18_es_depends_on_survivors_only", "C18_survivors_in_box",
             "C18_search_argmin", "C18_one_eval", "C18_mask_valid", "C18_mask_index_safe",
             "C18_mask_fuel_suffices", "C18_hedge_distribution"]
 LEVEL = "proof"
@@ -16,22 +17,25 @@ RULE = ("(i) mask: the real _get_selection_idx_mask_ for ALL 0<=mu,lamb<=120 (qu
         "function's own first statements (AST), premises of C18_mask_valid checked on every actual w0, model mask == real mask; "
         "plus synthetic weight vectors (zeros, negative, unsorted) through the function's own integer statements; "
         "non-trivial = mask differs from 0..lamb.  (ii) ES loop: short real BADS runs (D 1-3, n_search 16..4096, "
-        "n_search_iter 1..5, no / disc / thin-band / lattice constraint) with acq_fcn_lcb and contraints_check wrapped inside "
-        "pybads.search.es_search; model run on the recorded generations vs returned (us[0], z[0]); non-trivial = a shrunk or "
-        "truncated population.  (iii) search step: target/logger calls per _search_step_, evaluated point vs argmin row, on plain "
+        "n_search_iter 1..5, no / disc / thin-band / lattice constraint, hard bounds that are / are not multiples of the search "
+        "mesh) with acq_fcn_lcb and contraints_check wrapped inside pybads.search.es_search; model run on the recorded generations "
+        "(numbers and NaN; on two runs a random subset of the acquisition values is replaced by NaN from outside) vs returned (us[0], z[0]); non-trivial = a shrunk or truncated population; small thin-band populations are "
+        "run until at least 5 ES calls with a generation WITHOUT survivors after one WITH survivors have been compared "
+        "(coverage es_later_empty_generation).  (iii) search step: target/logger calls per _search_step_, evaluated point vs argmin row, on plain "
         "runs and on runs whose search set is widened from outside to several rows.  (iv) hedge: real ESSearchHedge over "
         "synthetic update_hedge histories (gamma 0..0.5, 2-4 strategies); prob vs exact model at 1e-9, choice exact.")
 TRUSTED = [
     "Coq 8.16.1 kernel + vm_compute (case evaluation); no native_compute",
-    "hand-written model Model/ESSelect.v of es_search.py l.44-69/134-210, search_hedge.py l.58-67, bads.py l.1630-1655, tied by differential comparison (harness/comp_search.py)",
+    "hand-written model Model/ESSelect.v of es_search.py l.44-69/134-215, search_hedge.py l.58-67, bads.py l.1630-1655, tied by differential comparison (harness/comp_search.py)",
     "np.argsort modelled as a stable sort: on ties of the minimal acquisition value only z and membership are compared",
     "w0 = ceil(...) of the mask and e_i = exp(beta (g_i - max g)) of the hedge are float oracle inputs (the AST split of the mask function and the harness' own exp expression are trusted to follow the code; a drift shows as a broken correspondence)",
     "hedge probabilities compared to the exact rational at 1e-9 relative; rounding of cumsum(prob)[-1] below 1 is not modelled",
     "NumPy fancy indexing / argmin / argwhere / cumsum semantics as modelled",
 ]
 ASSUMPTIONS = [
-    "acquisition values are not NaN (cases with NaN are counted and skipped)",
-    "C18_es_returns_min: every generation of the evolution strategy keeps at least one survivor.  If ALL generations are empty the strategy returns the empty set and nothing is evaluated (C18_es_all_filtered_is_failed_search).  If only a LATER generation is empty the code also returns the empty set although survivors exist (es_search.py l.166 wipes z_candidates) — modelled, proved as the observation C18_es_later_empty_generation, counted as 'dropped' in the coverage, not gated on",
+    "ES loop: acquisition values may be NaN (ranked after every number, as np.argsort does) but not infinite (such calls are counted and not compared); search step (argmin): acquisition values are not NaN (cases with NaN are counted and skipped)",
+    "C18_es_returns_min: at least ONE generation of the evolution strategy has a survivor (then the returned pair is a survivor of minimal acquisition value over ALL generations; a later generation without survivors loses nothing: C18_es_later_empty_generation).  If ALL generations are empty the strategy returns the empty set and nothing is evaluated (C18_es_all_filtered_is_failed_search), and only then (C18_es_empty_only_if_all_filtered)",
+    "C18_survivors_in_box: the generated candidates are numbers (a candidate with NaN coordinates would pass np.minimum/np.maximum and the constraint comparisons of contraints_check; the monitor reports any such survivor under the key es-nan-candidates)",
     "n_search_iter >= 1",
     "lamb >= 1 and, for the mask theorem, mu = us.shape[0] >= 1",
 ]
@@ -74,25 +78,64 @@ def part_mask(ctx, broken):
 
 
 # ------------------------------------------------------------------------------- (ii) + (iii)
+LATER_EMPTY_WANTED = 5        # ES calls with a generation without survivors after one with survivors, compared with the model
+
+
+def _es_problems(c):
+    """[(kind, key, message)] of one recorded ES call: the property monitor and the NaN-candidate monitor."""
+    kind, msg, key = S.es_monitor(c)
+    out = [(kind, key, msg)]
+    nan = S.es_nan_monitor(c)
+    if nan:
+        out.append(("nan-candidates", "es-nan-candidates", nan))
+    return out
+
+
 def part_runs(ctx, broken):
     es_cases, es_meta, st_cases, st_meta = [], [], [], []
     kinds_es, kinds_st, crashes, set_sizes = {}, {}, {}, {}
-    for cfg in S.panel(ctx.quick, ctx.seed):
+    later = dict(calls=0, compared=0, followed_by_more_generations=0, nan_candidates_after=0, returned_point=0, extra_runs=0)
+    offmesh = dict(es_calls=0, survivors_on_rounded_bound=0)
+    skipped = dict(inf=0, too_large=0)
+    nan_z = dict(es_calls_with_nan_values=0, all_values_nan=0, compared=0)
+    cfgs = list(S.panel(ctx.quick, ctx.seed))
+    k_cfg = 0
+    while k_cfg < len(cfgs):
+        cfg = cfgs[k_cfg]
+        k_cfg += 1
         out = S.run_bads(cfg)
         if out["crash"]:
             crashes[out["crash"]] = crashes.get(out["crash"], 0) + 1
         for k, c in enumerate(out["es_calls"]):
-            kind, msg = S.es_monitor(c)
-            kinds_es[kind] = kinds_es.get(kind, 0) + 1
-            if kind in ("bad", "unobserved"):
-                _viol(ctx, "es-not-min" if kind == "bad" else "es-unobserved",
-                      f"{c['cls']} (mu={c['mu']}, lamb={c['lamb']}, generations {[g[1].shape[0] for g in c['gens']]}): {msg}",
-                      dict(kind="run", cfg=cfg, es_index=k))
+            sizes = [g[1].shape[0] for g in c["gens"]]
+            for kind, key, msg in _es_problems(c):
+                kinds_es[kind] = kinds_es.get(kind, 0) + 1      # "nan-candidates" is counted in addition to the call's own kind
+                if key:
+                    _viol(ctx, key, f"{c['cls']} (mu={c['mu']}, lamb={c['lamb']}, generations {sizes}): {msg}",
+                          dict(kind="run", cfg=cfg, es_index=k))
             lit = S.es_case(c)
             if lit is not None:
                 es_cases.append(lit)
                 es_meta.append((cfg, k, c))
-            sizes = [g[1].shape[0] for g in c["gens"]]
+            else:
+                skipped["inf" if any(g[2] is not None and (np.isinf(g[2]).any() or np.isinf(g[1]).any()) for g in c["gens"]) else "too_large"] += 1
+            zs_all = [g[2] for g in c["gens"] if g[2] is not None and g[2].size]
+            if zs_all and np.isnan(np.concatenate(zs_all)).any():
+                nan_z["es_calls_with_nan_values"] += 1
+                nan_z["all_values_nan"] += 1 if np.isnan(np.concatenate(zs_all)).all() else 0
+                nan_z["compared"] += 1 if lit is not None else 0
+            if S.later_empty_generation(c):
+                later["calls"] += 1
+                later["compared"] += 1 if lit is not None else 0
+                first_empty = next(i for i, n in enumerate(sizes) if n == 0 and any(sizes[:i]))
+                later["followed_by_more_generations"] += 1 if first_empty < len(sizes) - 1 else 0
+                later["nan_candidates_after"] += 1 if S.es_nan_monitor(c) else 0
+                later["returned_point"] += 0 if (c["ret"] is None or isinstance(c["ret"], str)) else 1
+            if c.get("hard_lb") is not None and c.get("search_mesh"):
+                lo, hi = S.mesh_rounded_box(c["hard_lb"], c["hard_ub"], c["search_mesh"])
+                if np.any(lo != c["hard_lb"]) or np.any(hi != c["hard_ub"]):
+                    offmesh["es_calls"] += 1
+                    offmesh["survivors_on_rounded_bound"] += sum(int(np.sum(np.any((g[1] == lo) | (g[1] == hi), axis=1))) for g in c["gens"] if g[1].shape[0])
             ctx.count(1, 1 if (sum(sizes) > c["lamb"] or any(n < c["mu"] for n in sizes)) else 0)
         for k, s in enumerate(out["steps"]):
             kind, msg = S.step_monitor(s)
@@ -107,6 +150,14 @@ def part_runs(ctx, broken):
             ctx.count(1, 1 if (s["set"] is not None and s["set"].shape[0] != 1) else 0)
             if s["set"] is not None:
                 set_sizes[str(s["set"].shape[0])] = set_sizes.get(str(s["set"].shape[0]), 0) + 1
+        if k_cfg == len(cfgs) and later["compared"] < LATER_EMPTY_WANTED and later["extra_runs"] < 12:
+            cfgs.append(S.extra_band_cfg(ctx.seed, later["extra_runs"]))     # more small thin-band populations
+            later["extra_runs"] += 1
+    ctx.coverage["es_later_empty_generation"] = later
+    ctx.coverage["es_box_not_on_mesh"] = offmesh
+    ctx.coverage["es_calls_not_compared"] = skipped
+    ctx.coverage["es_nan_acquisition_values"] = nan_z
+    ctx.coverage["n_search_iter_seen"] = sorted({m[2]["iters"] for m in es_meta})
     ctx.coverage["es_calls"] = kinds_es
     ctx.coverage["search_steps"] = kinds_st
     ctx.coverage["search_set_sizes"] = set_sizes
@@ -115,11 +166,16 @@ def part_runs(ctx, broken):
         c = es_meta[len(es_meta) // 2][2]
         ctx.sample(dict(part="es", cls=c["cls"], lamb=c["lamb"], generations=[g[1].shape[0] for g in c["gens"]],
                         returned=c["ret"] if (c["ret"] is None or isinstance(c["ret"], str)) else [c["ret"][0].tolist(), c["ret"][1]]))
-    ctx.oblige("monitor:es", "monitor", not kinds_es.get("bad") and not kinds_es.get("unobserved"), json.dumps(kinds_es))
+    ctx.oblige("monitor:es", "monitor", not kinds_es.get("bad") and not kinds_es.get("unobserved") and not kinds_es.get("nan-candidates"),
+               json.dumps(kinds_es))
     ctx.oblige("monitor:search_step", "monitor", not kinds_st.get("bad"), json.dumps(kinds_st))
     enough = kinds_es.get("ok", 0) >= 20 and kinds_st.get("ok", 0) >= 20
     if not ctx.oblige("coverage:runs", "correspondence", enough, f"es ok={kinds_es.get('ok', 0)} steps ok={kinds_st.get('ok', 0)}"):
         broken.append(("coverage:runs", f"too few search steps observed (es {kinds_es}, steps {kinds_st}, crashes {crashes})"))
+    if not ctx.oblige("coverage:later_empty_generation", "correspondence", later["compared"] >= 3 and offmesh["es_calls"] >= 10,
+                      f"{json.dumps(later)}; box not on the mesh: {json.dumps(offmesh)}"):
+        broken.append(("coverage:later_empty_generation", f"too few ES calls with a later generation without survivors ({later}) "
+                       f"or with hard bounds off the search mesh ({offmesh})"))
     ok1, bad1, log1 = core.run_cases("C18es", S.REQUIRES, S.ES_TY, S.ES_OK, es_cases, shard=max(1, (len(es_cases) + 11) // 12))
     ctx.coverage["traces_validated_against_impl"] = len(es_cases) - len(bad1)
     if not ctx.oblige("correspondence:es_loop", "correspondence", ok1 and not bad1, f"{len(bad1)} of {len(es_cases)} ES calls differ; " + log1[-400:]):
@@ -181,13 +237,13 @@ def tie(ctx, broken):
 def search(ctx, broken):
     """Something is broken and the monitors above found no concrete input: look further afield."""
     for extra in range(1, 3):
-        for cfg in S.panel(True, ctx.seed + 17 * extra):
+        for cfg in S.panel(True, ctx.seed + 17 * extra) + [S.extra_band_cfg(ctx.seed + 17 * extra, j) for j in range(6)]:
             out = S.run_bads(cfg)
             for k, c in enumerate(out["es_calls"]):
-                kind, msg = S.es_monitor(c)
-                if kind == "bad":
-                    ctx.violate("es-not-min", f"{c['cls']}: {msg}", dict(kind="run", cfg=cfg, es_index=k))
-                    return True
+                for kind, key, msg in _es_problems(c):
+                    if kind in ("bad", "nan-candidates"):
+                        ctx.violate(key, f"{c['cls']}: {msg}", dict(kind="run", cfg=cfg, es_index=k))
+                        return True
             for k, s in enumerate(out["steps"]):
                 kind, msg = S.step_monitor(s)
                 if kind == "bad":
@@ -218,9 +274,10 @@ def replay(ctx, rp):
         out = S.run_bads(r["cfg"])
         msgs = []
         for k, c in enumerate(out["es_calls"]):
-            kd, msg = S.es_monitor(c)
-            if kd in ("bad", "unobserved"):
-                msgs.append(f"ES call {k} ({c['cls']}, generations {[g[1].shape[0] for g in c['gens']]}): {msg}")
+            for kd, key, msg in _es_problems(c):
+                # the NaN-candidate finding is reported only when the replay file is about it (it has its own key)
+                if key and (key != "es-nan-candidates" or rp.get("key") == "es-nan-candidates"):
+                    msgs.append(f"ES call {k} ({c['cls']}, generations {[g[1].shape[0] for g in c['gens']]}): {key}: {msg}")
         for k, s in enumerate(out["steps"]):
             kd, msg = S.step_monitor(s)
             if kd == "bad":
